@@ -37,6 +37,7 @@ without any WHERE all of whose references do.
 import itertools
 import json
 import os
+import re
 import sys
 
 REPO = sys.argv[1] if len(sys.argv) > 1 else '/repo'
@@ -198,6 +199,8 @@ class Abs:
             raise Unsupported('dml statement in a read-only query')
         if isinstance(n, pgast.CommonTableExpr):
             raise Unsupported('cte definition outside a WITH list')
+        if isinstance(n, pgast.LiteralExpr) and re.search(r'edgedb(pub|std)?\s*\.|\bfrom\b', n.expr, re.I):
+            raise Unsupported('raw SQL text that may name a relation: ' + n.expr[:60])
         return self.op(tn)
 
     def op(self, tn):
@@ -338,6 +341,18 @@ class Abs:
                 return None
         scope = {it.alias.aliasname: it for it in items[1:]}
         basealias = base.alias.aliasname
+        # the output of a policy filter may only be built from the filtered base: a target that
+        # reads a column of one of the condition's subselects could carry unfiltered data out
+        for t in n.target_list:
+            st = [self.kid_of(tn, t)]
+            while st:
+                x = st.pop()
+                if (isinstance(x.node, pgast.ColumnRef) and len(x.node.name) >= 2
+                        and x.node.name[0] in scope):
+                    self.nscan, self.nref = save
+                    self.notes.append('filter-shaped SELECT outputs a column of its condition part: not a policy filter')
+                    return None
+                st.extend(x.kids)
         cond = self.cond(n.where_clause, [scope], basealias)
         aux = [self.abs(self.find_tn(tn, it)) for it in items[1:]]
         aux.append(self.abs(self.kid_of(tn, n.where_clause)))
